@@ -3,20 +3,24 @@ proved is the decision logic and the *shape* of the formula over the projected o
 import math
 
 OPAQUE_IN_CODEC = ("F_area", "area_size_m2")
-REAL_VALUED = ("F_area", "area_size_m2")
+REAL_VALUED = ("F_area", "area_size_m2", "proj_x", "proj_y")
 EARTH_RADIUS = 6371000
 
 
+def proj_x(lat1_deg, lon1_deg, lat2_deg, lon2_deg):
+    """southward offset (metres) of point 2 from point 1 in the router's planar projection (degrees in)"""
+    return -1 * EARTH_RADIUS * (math.radians(lat2_deg) - math.radians(lat1_deg))
+
+
+def proj_y(lat1_deg, lon1_deg, lat2_deg, lon2_deg):
+    """eastward offset (metres): equirectangular projection at the mean latitude"""
+    return EARTH_RADIUS * (math.radians(lon2_deg) - math.radians(lon1_deg)) * math.cos((math.radians(lat1_deg) + math.radians(lat2_deg)) / 2)
+
+
 def offsets(clat, clon, lat, lon):
-    """planar offsets (x: southward, y: eastward, metres) of the point from the area centre - the projection the
-    router uses (equirectangular at the mean latitude)"""
-    lat1 = math.radians(clat / 10000000)
-    lon1 = math.radians(clon / 10000000)
-    lat2 = math.radians(lat / 10000000)
-    lon2 = math.radians(lon / 10000000)
-    y = EARTH_RADIUS * (lon2 - lon1) * math.cos((lat1 + lat2) / 2)
-    x = -1 * EARTH_RADIUS * (lat2 - lat1)
-    return (x, y)
+    """planar offsets (x: southward, y: eastward, metres) of the point from the area centre (1/10 microdegrees in)"""
+    return (proj_x(clat / 10000000, clon / 10000000, lat / 10000000, lon / 10000000),
+            proj_y(clat / 10000000, clon / 10000000, lat / 10000000, lon / 10000000))
 
 
 def shape_of(area_type):
